@@ -637,6 +637,12 @@ func (fr *Frame) execValue(x ssa.Value, st *State) {
 		nv.GoT = v.X.Type()
 		fr.vals[v] = &nv
 		fr.rangeSrc[v] = v.X
+		if m, ok := v.X.Type().Underlying().(*types.Map); ok {
+			ks := e.sortOf(m.Key())
+			seenC := "Seen_" + san(fr.prefix+"_"+v.Name())
+			e.set(st, seenC, "(Array "+ks+" Bool)", "((as const (Array "+ks+" Bool)) false)")
+			fr.seenComp[v] = seenC
+		}
 	case *ssa.Next:
 		fr.nextInstr(v, st)
 	case *ssa.Select:
@@ -652,6 +658,9 @@ func (fr *Frame) alloc(v *ssa.Alloc, st *State) {
 	e := fr.e
 	el := v.Type().Underlying().(*types.Pointer).Elem()
 	r := e.allocRef(st, fr.name(v))
+	if fr.root().isTop && v.Heap {
+		e.localRefs[r] = true
+	}
 	val := &Val{T: r, S: "Int", GoT: v.Type()}
 	switch u := el.Underlying().(type) {
 	case *types.Struct:
@@ -743,7 +752,7 @@ func (fr *Frame) makeSlice(v *ssa.MakeSlice, st *State) {
 	e := fr.e
 	ln, cp := fr.val(v.Len), fr.val(v.Cap)
 	e.oblige("safety", "make size: "+fr.srcText(v.Pos()), st.pc,
-		"(and (<= 0 "+ln.T+") (<= "+ln.T+" "+cp.T+") (<= "+cp.T+" 281474976710656))", nil, v.Pos(), "negative or oversized make")
+		"(and (<= 0 "+ln.T+") (<= "+ln.T+" "+cp.T+") (<= "+cp.T+" 17592186044416))", nil, v.Pos(), "negative or oversized make")
 	r := e.allocRef(st, fr.name(v)+"_arr")
 	el := v.Type().Underlying().(*types.Slice).Elem()
 	c, es := e.elemComp(el)
@@ -979,6 +988,11 @@ func (fr *Frame) nextInstr(v *ssa.Next, st *State) {
 	seenS := "(Array " + ks + " Bool)"
 	seen := e.get(st, seenC, seenS)
 	e.assume(st.pc, sImp(ok, sNot(sSel(seen, k))))
+	// the iteration ends only when every key of the map has been visited
+	e.ctr++
+	qk := fmt.Sprintf("sk!%d", e.ctr)
+	domT := sSel(e.get(st, dom, "(Array Int (Array "+ks+" Bool))"), mv.T)
+	e.assume(st.pc, sImp(sNot(ok), fmt.Sprintf("(forall ((%s %s)) (! (=> (and (not (= %s 0)) (select %s %s)) (select %s %s)) :pattern ((select %s %s))))", qk, ks, mv.T, domT, qk, seen, qk, domT, qk)))
 	e.set(st, seenC, seenS, sIte(ok, sStore(seen, k, "true"), seen))
 	fr.seenComp[rng] = seenC
 	fr.vals[v] = &Val{S: "Tuple", GoT: v.Type(), Tup: []*Val{{T: ok, S: "Bool"}, {T: k, S: ks, GoT: m.Key()}, {T: vv, S: vs, GoT: m.Elem()}}}
@@ -1045,10 +1059,17 @@ func (fr *Frame) unop(v *ssa.UnOp, st *State) {
 		r := fr.load(st, x, v.Pos())
 		nv := fr.bind(v, r.T)
 		nv.Src = r.Src
+		nxt := e.next(st)
+		if loc := fr.ptrLoc(x); loc != nil && loc.Comp != "" {
+			// a value read from the entry version of a component existed at function entry
+			if cur, ok := st.heap[loc.Comp]; !ok || cur == loc.Comp+"!0" {
+				nxt = "$next!0"
+			}
+		}
 		if x.Loc != nil && x.Loc.Kind == locGlobal {
 			// address of a global used directly (e.g. blockPool.Get()): provenance on the pointer
 		}
-		e.assume(st.pc, e.wf(v.Type(), nv.T, e.next(st)))
+		e.assume(st.pc, e.wf(v.Type(), nv.T, nxt))
 		if loc := fr.ptrLoc(x); loc != nil && loc.Kind == locCell {
 			if m, ok := fr.cellMeta[loc.Base]; ok {
 				nv.Clo, nv.Loc = m.Clo, m.Loc
